@@ -353,6 +353,7 @@ def _run_case(inp, tmpdir):
     calls_lit, obs_lit = [], []
     unmodelled = None
     n_ok = n_rejected = 0
+    f28_seen = [False] * len(trackers)      # a non-gate circuit already made this tracker fail while recording
     _ACTIVE["log"] = log
 
     def check_width(what, got, circuit):
@@ -497,6 +498,7 @@ def _run_case(inp, tmpdir):
             if op in ("run", "batch", "dist") and raised_here and inner.last is not None:
                 fails.append(("F28" if nongate else "tracker",
                               f"{where}: tracker level {ti} raised although the wrapped runner returned a result"))
+                f28_seen[ti] = f28_seen[ti] or nongate
                 if after_pending[ti][1] != stale:
                     fails.append(("F28" if nongate else "tracker",
                                   f"{where}: tracker level {ti} keeps {len(after_pending[ti][1])} records of the failed call in raw_data"))
@@ -505,7 +507,7 @@ def _run_case(inp, tmpdir):
                     fails.append(("tracker", f"{where}: tracker level {ti} did not return the wrapped runner's object"))
                 raw = after_files[ti][1]
                 if stale:
-                    fails.append(("F28" if raw[:len(stale)] == stale else "tracker",
+                    fails.append(("F28" if (f28_seen[ti] and raw[:len(stale)] == stale) else "tracker",
                                   f"{where}: file of tracker level {ti} starts with {len(stale)} records left over from an earlier failed call"))
                     raw = raw[len(stale):]
                 if after_pending[ti][1]:
